@@ -82,6 +82,12 @@ def state_eq(I, a, b, memo=None):
     if isinstance(a, Obj) and isinstance(b, Obj):
         ka = {k for k in a.__dict__ if k != "_cls"}
         kb = {k for k in b.__dict__ if k != "_cls"}
+        if getattr(getattr(a, "_cls", None), "__name__", None) in ("DDLParser", "Parser") and kb <= ka:
+            # the parser object: an attribute the function under verification adds and the reference does not know is
+            # incidental bookkeeping as far as THIS contract goes (a, the first argument, is always the function's side);
+            # whether it may survive a run is the init-before-use frame obligation's business.  Not so for table objects:
+            # every attribute of a table is reported (to_dict walks __dict__).
+            ka = kb
         if ka != kb:
             return False
         return I.and_all([state_eq(I, a.__dict__[k], b.__dict__[k], memo) for k in sorted(ka)])
@@ -192,11 +198,30 @@ class Verifier:
         # [tag, *args] and yields an opaque result that is a function of the arguments (the reference uses ghost_call)
         for skey, stag in (getattr(C.cls, "stub_calls", None) or {}).items():
             def _mk(tag):
+                # tag | (tag, [attribute names]): the second form records the named attributes of the first argument
+                # AS THEY ARE AT THE CALL (the object itself would be compared in its final state)
+                attrs = None
+                if isinstance(tag, (tuple, list)):
+                    tag, attrs = tag[0], list(tag[1])
+
                 def hook(I_, fref, a, kw):
                     from .values import Opaque
+                    if attrs is not None:
+                        snap = [I_.deepcopy(getattr(a[0], n, None), {}) for n in attrs] + list(a[1:])
+                        I_.ghost.append([tag] + snap + [kw[k] for k in sorted(kw)])
+                        return (Opaque(tag, snap),)
                     I_.ghost.append([tag] + list(a) + [kw[k] for k in sorted(kw)])
                     return (Opaque(tag, list(a)),)
                 return hook
+            if isinstance(stag, str) and stag.startswith("stub_") and contract_fref(self.prog, C, stag) is not None:
+                # contract-local summary: a reference function of the contract class stands for the callee (its effects
+                # and result), inside this contract only
+                def _mk_local(ref):
+                    def hook(I_, fref, a, kw):
+                        return (I_.call_ref(ref, [C.case] + list(a), kw, top=True),)
+                    return hook
+                I.contracts[skey] = _mk_local(contract_fref(self.prog, C, stag))
+                continue
             I.contracts[skey] = _mk(stag)
         for lk, ls in (getattr(C.cls, "loops", None) or {}).items():
             fk, ordinal = lk.rsplit("#", 1)
